@@ -43,7 +43,7 @@ def main() -> int:
             tb = traceback.extract_tb(e.__traceback__)
             where = ""
             for fr in tb:
-                if fr.filename.startswith("/repo/pipefunc"):
+                if fr.filename.startswith(os.environ.get("VERIF_REPO", "/repo") + "/pipefunc"):
                     where = fr.name
             res["outcome"] = "raised"
             res["signature"] = f"raise:{type(e).__name__}:{where}"
